@@ -76,6 +76,8 @@ def xmap(text):
     return out
 
 
+MAX_DELTA = 60 * 60 * 24 * 30
+
 MUTATORS = {"add", "set", "wcas", "remove", "delete", "touch", "gat", "incr", "setx", "rmx", "updx", "wwx", "wtx", "wrx",
             "uxdb", "delx", "dsp", "swm", "dwm", "update", "wuwx", "wsd", "sdi"}
 BUCKET_LEVEL = {"purge", "fire"}
@@ -177,7 +179,10 @@ def mon_C01(ops, results):
     """reads agree with the stored version; a failed operation leaves the document as it was; the CAS a write
     returns is the CAS reads then report."""
     out = []
+    now = 1700000000
     for i, name, pos, args, res, last, feeds in Trace(ops, results).steps():
+        if name == "now":
+            now = int(arg(args, "s", str(now)))
         if name == "rb" and res.startswith("row="):
             d = rb_fields(res)
             body = d.get("row.v", "~")
@@ -212,6 +217,16 @@ def mon_C01(ops, results):
                 out.append(viol("C01.error-leaves-document-unchanged", i, "%s returned %s but the row changed: %s -> %s" % (name, res, row_of(before), row_of(after))))
             if succeeded(name, rf) and "cas" in rf and name not in ("wsd",) and rf["cas"] != after.get("row.cas"):
                 out.append(viol("C01.returned-cas-is-stored-cas", i, "%s returned cas %s, stored %s" % (name, rf["cas"], after.get("row.cas"))))
+            # the expiry left by a successful body write is the one it was given
+            if succeeded(name, rf) and name in ("set", "add", "wcas", "incr") and not absent(after) and arg(args, "exp") is not None:
+                if name == "wcas" and arg(args, "v") is None:
+                    continue
+                if name == "set" and arg(args, "pe", "0") != "0" and before is not None and not absent(before):
+                    continue
+                e = int(arg(args, "exp", "0"))
+                want = e + now if 0 < e <= MAX_DELTA else e
+                if after.get("ge") not in ("ok:%d" % want,) and after.get("row.v", "~") != "~":
+                    out.append(viol("C01.expiry-of-last-write", i, "%s with exp=%d (now %d) succeeded but GetExpiry reports %s, expected %d" % (name, e, now, after.get("ge"), want)))
     return out
 
 
@@ -355,9 +370,8 @@ def mon_C02(ops, results):
         if exp_cas is None:
             continue
         key = (pos[0], pos[1])
-        if key not in last:
-            continue
-        before = last[key]
+        # a key that no operation of the program has touched yet does not exist (every mutation is followed by a read-back)
+        before = last.get(key, {"row": "row=0"})
         cur = 0 if absent(before) else int(before.get("row.cas", "0"))
         if name in ("wsd", "sdi") and not has_body(before):
             cur = 0 if absent(before) else cur
@@ -868,6 +882,64 @@ def mon_C10(ops, results):
     return out
 
 
+def mon_C16(ops, results):
+    """feed lifecycles: a closed terminator ends exactly its feed; a feed that has not ended keeps receiving the writes of its
+    collection whatever happened to other feeds; an ended feed receives nothing more; no callback after done."""
+    out = []
+    feeds = {}       # id -> dict(coll, dump)
+    done = {}        # id -> last reported done flag
+    for i, line in enumerate(ops):
+        name, pos, args = parse_op(line)
+        res = results[i] if i < len(results) else ""
+        if name == "feed" and res.startswith("r=ok"):
+            feeds[pos[0]] = {"coll": pos[1], "dump": arg(args, "dump", "0") != "0"}
+        elif name == "lifestate" and res.startswith("r=ok"):
+            rf = res_fields(res)
+            if rf.get("afterdone", "0") != "0":
+                out.append(viol("C16.no-callback-after-done", i, "%s callbacks ran after a feed's done channel was closed" % rf["afterdone"]))
+            prev = dict(done)
+            for k, v in rf.items():
+                if k in feeds:
+                    done[k] = v
+            # which feeds ended since the previous snapshot, and was there a reason?
+            j = i - 1
+            while j >= 0 and parse_op(ops[j])[0] in ("lifestate",):
+                j -= 1
+            cause = parse_op(ops[j]) if j >= 0 else ("", [], [])
+            for fid, v in done.items():
+                if v == "1" and prev.get(fid, "0") == "0" and not feeds[fid]["dump"]:
+                    cname, cpos, cargs = cause
+                    legit = (cname == "stopfeed" and cpos and cpos[0] == fid) or (cname == "dropcoll" and cpos and cpos[0] == feeds[fid]["coll"]) \
+                        or cname in ("cadh", "hclose", "feed", "probe")
+                    if cname in ("feed", "probe"):
+                        legit = False
+                    if not legit:
+                        out.append(viol("C16.ends-only-its-own-feed", i, "feed %s (on %s) ended after `%s`" % (fid, feeds[fid]["coll"], ops[j])))
+                if v == "1" and prev.get(fid) == "1":
+                    pass
+                if v == "0" and prev.get(fid) == "1":
+                    out.append(viol("C16.ended-stays-ended", i, "feed %s was reported ended and is running again" % fid))
+            if cause[0] == "stopfeed" and cause[1] and cause[1][0] in done and done[cause[1][0]] != "1" and results[j].startswith("r=ok"):
+                out.append(viol("C16.terminator-ends-its-feed", i, "the terminator of %s was closed but the feed has not ended" % cause[1][0]))
+        elif name == "probe" and res.startswith("r=ok"):
+            rf = res_fields(res)
+            coll = pos[0]
+            for fid, f in feeds.items():
+                if f["coll"] != coll or fid not in rf:
+                    continue
+                got = rf[fid]
+                if got.startswith("stray"):
+                    out.append(viol("C16.other-collections-feeds-untouched", i, "feed %s received an event for a write to %s" % (fid, coll)))
+                elif done.get(fid, "0") == "0" and not f["dump"] and got != "1":
+                    out.append(viol("C16.running-feed-keeps-receiving", i, "feed %s on %s has not ended but received %s event(s) for a write to its collection" % (fid, coll, got)))
+                elif done.get(fid) == "1" and got != "0":
+                    out.append(viol("C16.no-delivery-after-end", i, "ended feed %s received %s event(s)" % (fid, got)))
+            for k, v in rf.items():
+                if k in feeds and feeds[k]["coll"] != coll and v.startswith("stray"):
+                    out.append(viol("C16.other-collections-feeds-untouched", i, "feed %s (on %s) received an event for a write to %s" % (k, feeds[k]["coll"], coll)))
+    return out
+
+
 def mon_C13(ops, results):
     """registry scripts: open modes succeed / fail by whether the bucket exists, a closed handle's calls fail with bucket-closed while
     other handles keep working, handles of a name share one store, data survives closes (on disk: the last close; in memory: until
@@ -1068,18 +1140,25 @@ def mon_C15(ops, results):
     return out
 
 
-MAX_DELTA = 60 * 60 * 24 * 30
 
 
 def mon_C14(ops, results):
     """the timer covers every stored expiry; a sweep at time N tombstones exactly the documents with 0 < exp <= N (deletion
     event included) and leaves the others alone; the expiry in force is the one the last write/touch set."""
     out, now = [], 1700000000
+    swept = False
     for i, name, pos, args, res, last, feeds in Trace(ops, results).steps():
         if name == "now":
             now = int(arg(args, "s", str(now)))
+        if name == "fire":
+            swept = True
+        elif name in MUTATORS or name in ("restart", "purge"):
+            swept = False
         if name == "expstate" and res.startswith("r=ok"):
             nxt = int(res_fields(res).get("next", "0"))
+            if swept and 0 < nxt <= now:
+                out.append(viol("C14.timer-rearmed-after-sweep", i, "after the sweep at %d the timer is still set for %d, which has passed: nothing later can expire" % (now, nxt)))
+            swept = False
             # readbacks between the previous mutation and this line describe the current rows
             cur = dict(last)
             for (c, k), d in cur.items():
@@ -1125,5 +1204,5 @@ def mon_C14(ops, results):
     return out
 
 
-MONITORS = {"C13": mon_C13, "C10": mon_C10, "C12": mon_C12, "C14": mon_C14, "C15": mon_C15, "C18": mon_C18, "C19": mon_C19, "C04": mon_C04, "C01": mon_C01, "C02": mon_C02, "C05": mon_C05, "C06": mon_C06, "C07": mon_C07, "C08": mon_C08, "C09": mon_C09,
+MONITORS = {"C16": mon_C16, "C13": mon_C13, "C10": mon_C10, "C12": mon_C12, "C14": mon_C14, "C15": mon_C15, "C18": mon_C18, "C19": mon_C19, "C04": mon_C04, "C01": mon_C01, "C02": mon_C02, "C05": mon_C05, "C06": mon_C06, "C07": mon_C07, "C08": mon_C08, "C09": mon_C09,
             "C11": mon_C11, "C17": mon_C17}
